@@ -95,8 +95,11 @@ class DistributionSampler(BaseSampler):
         ValueError: If the distribution type is unknown.
     """
     def __init__(self, distribution, seed=None, **params):
-        if seed is not None:
-            np.random.seed(seed)
+        # a seeded sampler owns its generator (same stream as the former
+        # np.random.seed(seed)): neither other samplers nor other users of the
+        # global generator change the values it returns
+        self._rng = np.random.RandomState(seed) if seed is not None \
+            else np.random
         self.distribution = distribution
         self.params = params
 
@@ -109,9 +112,9 @@ class DistributionSampler(BaseSampler):
         """
         # TODO: consider vectorizing this method with 'size' parameter
         if self.distribution == 'normal':
-            return np.random.normal(**self.params)
+            return self._rng.normal(**self.params)
         elif self.distribution == 'uniform':
-            return np.random.uniform(**self.params)
+            return self._rng.uniform(**self.params)
         else:
             raise ValueError(f'Unknown distribution: {self.distribution}')
 
